@@ -1048,7 +1048,14 @@ func (p *parser) scanGroupOpen() (*RegexNode, error) {
 						return nil, err
 					}
 
-					if !p.isCaptureSlot(capnum) {
+					if p.maintainCaptureOrder && capnum != 0 {
+						// the pre-scan filed the digits as a name, in pattern order
+						if capname := strconv.Itoa(capnum); p.isCaptureName(capname) {
+							capnum = p.captureSlotFromName(capname)
+						} else {
+							capnum = -1
+						}
+					} else if !p.isCaptureSlot(capnum) {
 						capnum = -1
 					}
 
